@@ -251,7 +251,8 @@ def jsonable(o):
 
 def finish(ctx, lean_info, level_text, assumptions):
     """write evidence, print findings/violations, return the exit code"""
-    os.makedirs(os.path.join(VERIF, "evidence"), exist_ok=True)
+    evdir = os.environ.get("VERIF_EVIDENCE_DIR") or os.path.join(VERIF, "evidence")   # override: experiments on scratch copies
+    os.makedirs(evdir, exist_ok=True)
     obligations = lean_info["theorems"] + len(ctx.blocks)
     discharged = lean_info["theorems_ok"] + sum(1 for c, ok in ctx.blocks.values() if ok)
     code = 0
@@ -291,6 +292,5 @@ def finish(ctx, lean_info, level_text, assumptions):
         "wall_s": round(time.time() - ctx.t0, 2),
         "violations": len(ctx.violations),
     }
-    json.dump(ev, open(os.path.join(VERIF, "evidence", f"{ctx.prop}.json"), "w"), indent=1,
-              default=jsonable)
+    json.dump(ev, open(os.path.join(evdir, f"{ctx.prop}.json"), "w"), indent=1, default=jsonable)
     return code
